@@ -462,7 +462,35 @@ def run(ctx):
             mi = match(('agg', 'core::ops::range::Range', 'Range', (('start', V('s')), ('end', I))), si)
             if mo is not None and mi is not None and set(idxs) == {I, J}:
                 ok = True
-        if ok:
+                # where the search window starts: index 0 of a list that is cleared on irreversible moves, or a window index
+                # that must point AT the entry of the position the irreversible move produced (not past it)
+                S0 = mi['s']
+                if S0 != ('int', 0, 'usize'):
+                    if S0[0] == 'loop' and S0[1] == h:
+                        verdicts = []
+                        for st2 in s.stores:
+                            if st2.get('local') and st2['target'] == ('ref', S0[2], ()) and st2['blk'] in L['blocks']:
+                                v2 = norm(st2['value'])
+                                pushed = any(isinstance(x, tuple) and x and x[0] == 'after' and str(x[2]).endswith('::push') for x in walk(v2))
+                                if v2[0] == 'call' and v2[1].endswith('::len'):
+                                    verdicts.append('past' if pushed else 'at')
+                                elif v2[0] == 'bin' and v2[1] == 'Sub' and v2[3] == ('int', 1, 'usize') and v2[2][0] == 'call' and v2[2][1].endswith('::len'):
+                                    verdicts.append('at' if pushed else '?')
+                                else:
+                                    verdicts.append('?')
+                        if 'past' in verdicts:
+                            ok = None
+                            ctx.violation('C11.R3', KEY + ':window-start', 'the repetition window is moved to `len()` AFTER the position produced by the '
+                                          'irreversible move was pushed: that position (index len()-1) is never counted as an occurrence', where(body, st['line']))
+                        elif not verdicts or '?' in verdicts:
+                            ok = None
+                            ctx.inconclusive('C11.R3', 'the repetition search starts at a window index whose updates are not analysed: ' + sh(S0, 80))
+                    else:
+                        ok = None
+                        ctx.inconclusive('C11.R3', 'the repetition search starts at %s (neither 0 nor a window index kept by the replay loop)' % sh(S0, 80))
+        if ok is None:
+            pass
+        elif ok:
             ctx.ok('C11.R3', 'repetition: `return true` requires list[i] == last and list[j] == last with j < i < len-1 (two distinct earlier entries)',
                    where(body, st['line']))
         elif any(c_['callee'] and c_['callee'].split('::')[-1] in ('any', 'all', 'find', 'position', 'filter', 'count', 'fold') and
